@@ -321,13 +321,18 @@ def find_operators(expr: sympy.Expr) -> list[OperatorType]:
     """
     # replace n -> a† * a and convert number ordered forms to expressions.
     # Number operator of ladder operators need to be included separately.
-    expr = expr.doit()
+    # Also search the original expression: doit() may cancel terms such as c† * N_c
+    # together with the only explicit occurrence of an operator.
+    original, expr = expr, expr.doit()
     return sorted(
         set().union(
             (
                 op
                 for particle, generator in zip(operator_types, generator_types)
-                for op in (generator(atom.name) for atom in expr.atoms(particle))
+                for op in (
+                    generator(atom.name)
+                    for atom in (*expr.atoms(particle), *original.atoms(particle))
+                )
             ),
             (
                 LadderOp(atom.name)
